@@ -618,9 +618,19 @@ def check_C07(tier):
     ck.add_tlc(tree)
     term = sl.load_nodes(tree, want=lambda o: len(o["legal"]) == 0)
     rng.shuffle(term)
+    allnodes = {(n["rootidx"], tuple(n["path"])): n for n in sl.load_nodes(tree, want=lambda o: len(o["path"]) <= (1 if quick else 2))}
     for n in term[:(40 if quick else 400)]:
         add(n, "depth", "terminal-root", depth=2)
         add(n, "movetime", "terminal-root", movetime=20)
+        # the same root with the fifty-move clock run out (set up from a FEN): no legal move comes first - mated stays mated
+        for hmc in (100, 137):
+            pos = dict(n["pos"], hmc=hmc)
+            add({"pos": pos, "root": pos, "path": [], "kinds": []}, "depth", "terminal-root", depth=2)
+        # ... and reached by play: the move that mates / stalemates is the hundredth half-move
+        par = allnodes.get((n["rootidx"], tuple(n["path"][:-1]))) if n["path"] else None
+        if par is not None and n["pos"]["hmc"] == par["pos"]["hmc"] + 1:
+            ppos = dict(par["pos"], hmc=99)
+            add({"pos": dict(n["pos"], hmc=100), "root": ppos, "path": n["path"][-1:], "kinds": n["kinds"][-1:]}, "depth", "terminal-root", depth=2)
     recs = sl.run_jobs(jobs, procs=12)
     byid = {j["id"]: j for j in jobs}
     # terminal classifications, de-duplicated by position and kind
@@ -771,6 +781,24 @@ def check_C13(tier):
     for n in pos[:(6 if quick else 30)]:
         for t in (30, 60, 120, 250) + (() if quick else (500,)):
             add(n, "movetime", "movetime", movetime=t)
+    # roots with a forced mate on the board (the specification's game tree says which: a child without legal moves, in check):
+    # the depth limit counts there as everywhere else - a found mate is no licence to stop early
+    tree = shared(tier)["tree"]
+    tnodes = {(n["rootidx"], tuple(n["path"])): n for n in sl.load_nodes(tree, want=lambda o: len(o["path"]) <= 2)}
+    mated = [k for k, n in tnodes.items() if not n["legal"] and n["inCheck"] and k[1]]
+    m1 = sorted({(k[0], k[1][:-1]) for k in mated})                                     # the mover mates in one
+    m2 = sorted({(k[0], k[1][:-2]) for k in mated if len(k[1]) == 2                    # ... is mated in two plies whatever it plays
+                 and all((k[0], k[1][:-2] + (m,)) in set(m1) for m in tnodes[(k[0], k[1][:-2])]["legal"])})
+    rng.shuffle(m1)
+    rng.shuffle(m2)
+    nm = 0
+    for k in m1[:(10 if quick else 80)] + m2[:(6 if quick else 40)]:
+        n = tnodes[k]
+        if len(n["legal"]) < 2 or n["pos"]["hmc"] > 80:
+            continue
+        nm += 1
+        for d in (3, 5):
+            add(n, "depth", "depth", depth=d)
     recs = sl.run_jobs(jobs, procs=6)     # fewer processes: wall-clock clauses are measured here
     byid = {j["id"]: j for j in jobs}
     items = [{"k": "root", "id": r["id"], "pos": byid[r["id"]]["pos"]} for r in recs if not r["error"] and byid[r["id"]]["tag"] == "depth"]
@@ -837,6 +865,7 @@ def sound_cfg(bits, quiescence):
         cfg["UseTTMove"] = True          # the hash table is used for move ordering only
     if quiescence:
         cfg.update({"UseQuiescence": True, "UseQSStandpat": True, "UseSEE": True})
+        cfg["UseQSTT"] = cfg["UseTT"]    # ... in the quiescence search as well (UseTTValue stays off: no cut-offs from it)
     return cfg
 
 
@@ -909,6 +938,22 @@ def check_C06(tier):
                     for bits in combos:
                         jobs.append(sl.job(node, len(jobs) + 1, "depth", "qs:%d:%d" % (iid, bits), depth=d,
                                            cfg=sound_cfg(bits, True), iiddepth=2))
+    # quiescence clause on middlegame positions with their game histories (TLC walks), and with a DIRTY hash table: the table
+    # is filled by a deeper search of the same position first, so that positions which are quiescence nodes now carry the
+    # best moves of full-width nodes - used for move ordering only, that must not change the value either
+    qmeta = {}
+    wart, wnormal, _, _ = search_positions(tier, rng)
+    ck.add_tlc(wart)
+    qpos = [n for n in wnormal if n["pos"]["hmc"] <= 60 and n["rep"] == 0 and len(n["legal"]) >= 2][:(16 if quick else 240)]
+    for k, n in enumerate(qpos):
+        qid = 100000 + k
+        qd = 3
+        qmeta[qid] = {"pos": n["pos"], "d": qd}
+        for bits in ([0, 1, 64, 127] if quick else [0, 1, 2, 4, 8, 16, 32, 64, 65, 80, 96, 127]):
+            jobs.append(sl.job(n, len(jobs) + 1, "depth", "qs:%d:%d" % (qid, bits), depth=qd, cfg=sound_cfg(bits, True), iiddepth=2))
+        for bits in ([64, 127] if quick else [64, 65, 80, 127]):
+            jobs.append(sl.job(n, len(jobs) + 1, "depth", "qs:%d:%d" % (qid, bits + 1000), depth=qd, cfg=sound_cfg(bits, True), iiddepth=2,
+                               prefill="deeper"))
     # expected values: TLC evaluates Minimax
     cfg = 'INIT Init\nNEXT Next\nCONSTANTS\n  ItemsFile = "items.ndjson"\n  Chunks = 64\nINVARIANT Out\nCHECK_DEADLOCK FALSE\n'
     txt = "".join(json.dumps(i, separators=(",", ":")) + "\n" for i in items)
@@ -931,6 +976,7 @@ def check_C06(tier):
         key = "C06|%s|%s" % (kind, sig)
         ck.disc_count[key] = ck.disc_count.get(key, 0) + 1
     qsvals = {}
+    clamped = set()      # searches during which a game-phase sum above the maximum was cut down (hook): the known drift may act
     ncmp = 0
     for r in recs:
         j = byid[r["id"]]
@@ -940,6 +986,11 @@ def check_C06(tier):
             continue
         if r["error"]:
             disc("search-fails", "search-fails", r["fen"], r["error"], j)
+            continue
+        if kind == "qs":
+            qsvals.setdefault(iid, {}).setdefault(r["value"], []).append(bits)
+            if r.get("phase_clamps", 0) > 0:
+                clamped.add(iid)
             continue
         want = mm[iid]
         if kind == "exact":
@@ -956,15 +1007,15 @@ def check_C06(tier):
                 disc("best-move-does-not-attain-value", "minimax/best-move" + tag, r["fen"],
                      {"depth": j["depth"], "best": fenspec.mv_uci(r["best"]), "value": r["value"],
                       "moves_attaining": [fenspec.mv_uci(m) for m in want["bestMoves"]], "switches_on": on}, j)
-        else:
-            qsvals.setdefault(iid, {}).setdefault(r["value"], []).append(bits)
     for iid, byval in qsvals.items():
         ncmp += 1
         if len(byval) > 1:
-            it = items[iid - 1]
-            disc("quiescence-value-depends-on-sound-switches", "qs/value-differs" + ("/game-phase-drift-possible" if drift[iid] else ""),
-                 sl.fen_of(it["pos"]), {"depth": it["d"], "values": {str(v): [[n for i, n in enumerate(sl.SOUND) if b >> i & 1] for b in bs[:3]]
-                                                                   for v, bs in byval.items()}}, None)
+            it = qmeta[iid] if iid in qmeta else items[iid - 1]
+            dr = (iid in clamped) or drift.get(iid, False)
+            disc("quiescence-value-depends-on-sound-switches", "qs/value-differs" + ("/game-phase-drift-possible" if dr else ""),
+                 sl.fen_of(it["pos"]), {"depth": it["d"], "values": {str(v): [([n for i, n in enumerate(sl.SOUND) if (b % 1000) >> i & 1]
+                                                                             + (["hash table pre-filled by a deeper search"] if b >= 1000 else []))
+                                                                            for b in bs[:3]] for v, bs in byval.items()}}, None)
     ck.cov["evaluations"] = len(recs)
     ck.cov["distinct_nontrivial"] = len(items)
     ck.cov["traces_validated_against_impl"] = ncmp
